@@ -9,17 +9,20 @@
                                     {"err":"…"}                the step failed
                                     {"skipped":true}           a previous step failed
    every "ok" entry also carries "guarded": whether the op satisfied the guard of the theorems
-   (`GuardedOp s op ∧ AlignedOp op`, decided by the instances the theorems are stated with) in the state it ran in
+   (`GuardedOpW s op ∧ AlignedOpW op`, decided by the instances the theorems are stated with) in the state it ran in.
+   Widened ops (Model/HistWide.lean): {"k":"extend"} with dst = src is the object extended with ITSELF, {"k":"getitem"}
+   may list negative / repeated integers, {"k":"delete"} may list negative / repeated / unsorted integers (normalised to a set: deleteI).
 -/
 import MofunModel.Drive.Codec
 import MofunModel.Model.Hist
 import MofunModel.Proofs.HistMeaning
+import MofunModel.Proofs.HistWideLemmas
 
 open Lean Mofun.Codec Mofun.Hist
 
 namespace Mofun.Drive
 
-def parseHistOp (j : Json) : P Op := do
+def parseBaseOp (j : Json) : P Op := do
   let k ← (← field j "k").getStr?
   match k with
   | "construct" => pure (.construct (← parseNat (← field j "dst")) (← parseAtoms (← field j "a")))
@@ -35,6 +38,27 @@ def parseHistOp (j : Json) : P Op := do
   | "getitem" => pure (.getitem (← parseNat (← field j "src")) (← parseNat (← field j "dst"))
         (← parseNatList (← field j "idx")))
   | _ => throw ("unknown history op " ++ k)
+
+/-- widened ops: an extend whose two slots coincide is the object extended with ITSELF (`extendSelf`), a subset
+    with a negative integer is `getitemI`; everything else is an op of Model/Hist.lean -/
+def parseHistOp (j : Json) : P OpW := do
+  let k ← (← field j "k").getStr?
+  match k with
+  | "extend" => do
+      let dst ← parseNat (← field j "dst")
+      let src ← parseNat (← field j "src")
+      if dst == src then
+        pure (.extendSelf dst (← parseOffsets (fieldD j "offsets" Json.null)) (← parsePairs (fieldD j "map" (Json.arr #[]))))
+      else pure (.base (← parseBaseOp j))
+  | "getitem" => do
+      let idx ← (← arr (← field j "idx")).mapM (·.getInt?)
+      if idx.any (fun i => i < 0) then
+        pure (.getitemI (← parseNat (← field j "src")) (← parseNat (← field j "dst")) idx)
+      else pure (.base (← parseBaseOp j))
+  | "delete" => do
+      -- `del slot[idx]`: the code normalises any list of integers in [-n, n) to a set of positions
+      pure (.deleteI (← parseNat (← field j "slot")) (← (← arr (← field j "idx")).mapM (·.getInt?)))
+  | _ => pure (.base (← parseBaseOp j))
 
 /-- the slot an op writes -/
 def Op.target : Op → Nat
@@ -55,13 +79,19 @@ def stateToJson (s : State) : Json := Json.arr (s.map slotToJson).toArray
 def parseState (j : Json) : P State := do
   (← arr j).mapM (fun x => if x.isNull then pure none else do pure (some (← parseAtoms x)))
 
-def stepResultToJson (full : Bool) (op : Op) (guarded : Bool) : Option (Except Err State) → Json
+def OpW.target : OpW → Nat
+  | .base op => Op.target op
+  | .deleteI slot _ => slot
+  | .getitemI _ dst _ => dst
+  | .extendSelf slot _ _ => slot
+
+def stepResultToJson (full : Bool) (op : OpW) (guarded : Bool) : Option (Except Err State) → Json
   | none => Json.mkObj [("skipped", Json.bool true)]
   | some (.error e) => Json.mkObj [("err", Json.str e.toString)]
   | some (.ok s) =>
     if full then Json.mkObj [("ok", stateToJson s), ("guarded", Json.bool guarded)]
-    else Json.mkObj [("ok", Json.mkObj [("slot", natJ (Op.target op)),
-                                         ("a", slotToJson ((s[Op.target op]?).getD none))]),
+    else Json.mkObj [("ok", Json.mkObj [("slot", natJ (OpW.target op)),
+                                         ("a", slotToJson ((s[OpW.target op]?).getD none))]),
                      ("guarded", Json.bool guarded)]
 
 /-- the state each op ran in: the initial state, then the result of the previous step (while steps succeed) -/
@@ -82,10 +112,10 @@ def handleHist (op : String) (j : Json) : Option (P Json) :=
       let full := match (fieldD j "dump" (Json.str "full")).getStr? with
         | .ok "changed" => false
         | _ => true
-      let results := trace init ops
+      let results := traceW init ops
       let pres := preStates init results
       pure (Json.arr ((ops.zip (results.zip pres)).map (fun (o, r, pre) =>
-        stepResultToJson full o (decide (GuardedOp pre o ∧ AlignedOp o)) r)).toArray)
+        stepResultToJson full o (decide (GuardedOpW pre o ∧ AlignedOpW o)) r)).toArray)
   | _ => none
 
 end Mofun.Drive
